@@ -66,6 +66,15 @@ def strat_theta(tier):
                      gen.model_convection(), gen.mesh_any(2, nmax), _linear_nums(), _field(), st.sampled_from(im), gen.logf(-2, 2), st.integers(1, 4), st.booleans(), unit, dtfac)
 
 
+def strat_theta_large(tier):
+    """the same statement on a few LARGE systems (700 and 2100 unknowns), uniform and non-uniform meshes"""
+    _ex, im = cases.integrator_names()
+    mesh = st.builds(lambda n, kind, L: (dict(kind="uni", n=n, length=L, x0=0.0) if kind == 0 else dict(kind="morph", n=n, length=L, x0=0.0, law="sine", param=0.5)),
+                     st.sampled_from([700, 2100]), st.integers(0, 1), gen.logf(-1, 1))
+    return st.builds(lambda md, me, num, fld, integ, cfl, ns: dict(model=md, mesh=me, num=num, field=fld, integ=integ, cfl=cfl, nsteps=ns, local=False),
+                     gen.model_convection(), mesh, _linear_nums(), gen.prof_fourier(gen.f(-1, 1), gen.f(0.1, 1)), st.sampled_from(im), gen.logf(-1, 2), st.integers(1, 2))
+
+
 def check_theta(case):
     md, model, mesh, disc, n, q0, A, dx = _setup(case)
     name = case["integ"]
@@ -273,6 +282,7 @@ def _judge_jacobian(solver, P, field, qsc, neq, n, case, what):
 
 SUBCHECKS = [
     SubCheck("theta_and_gear_steps", check_theta, strategy=strat_theta, examples={"quick": 600, "thorough": 2500}, shards={"quick": 6, "thorough": 16}),
+    SubCheck("theta_and_gear_steps_large", check_theta, strategy=strat_theta_large, examples={"quick": 3, "thorough": 8}, shards={"quick": 4, "thorough": 8}),
     SubCheck("no_growth", check_growth, strategy=strat_growth, examples={"quick": 500, "thorough": 2000}, shards={"quick": 2, "thorough": 8}),
     SubCheck("temporal_order", check_order, strategy=strat_order, examples={"quick": 100, "thorough": 500}, shards={"quick": 3, "thorough": 8}),
     SubCheck("jacobian", check_jac, strategy=strat_jac, examples={"quick": 250, "thorough": 1000}, shards={"quick": 5, "thorough": 16}),
